@@ -200,7 +200,9 @@ func (b *assignmentBuilder) structFieldAndStructGettersAndFields(lhs bmodel.Node
 				a = nestStruct
 			}
 		}
-		return true
+		// Keep looking when this candidate gave nothing: with :case:off another
+		// candidate of the same folded name may fit.
+		return a != nil || err != nil
 	}
 
 	if opts.Getter && opts.Rule == gmodel.MatchRuleName {
